@@ -95,6 +95,7 @@ package keeper
 //@      let r1 := (len(pricing) != 0 ? old(raw)[KPricing(serviceName, provider) := enc_Pricing(parsePricing(pricing))] : old(raw)) in
 //@      raw == ((qos != 0 || len(deposit) != 0 || len(pricing) != 0) ? r1[KBind(serviceName, provider) := enc_ServiceBinding(nb)] : r1))
 //@ ensures [C03] deposits_in_custody_kept: err == NoErr && depInv(old(raw), old(bal)) ==> depInv(raw, bal)
+//@ ensures [C05] error_moves_no_coins: err != NoErr ==> bal == old(bal)
 
 //@ func (Keeper).Slash
 //@ props C04 C03 C14
@@ -113,3 +114,294 @@ package keeper
 //@ ensures only_that_binding: err == NoErr ==> (let s := ctxOf(old(raw), reqOf(old(raw), requestID).RequestContextId).ServiceName in let p := reqOf(old(raw), requestID).Provider in
 //@      raw == old(raw)[KBind(s, p) := raw[KBind(s, p)]] && bindFound(raw, s, p))
 //@ ensures error_changes_nothing: err != NoErr ==> raw == old(raw) && bal == old(bal) && supply == old(supply)
+//@ ensures [C04] fails_only_if_the_burn_cannot_be_made: (err == NoErr) <==> (!hasNeg(bindOf(old(raw), reqSvc(old(raw), requestID), reqProv(old(raw), requestID)).Deposit, slashBurn(old(raw), requestID)) &&
+//@      canPay(old(bal), depositAcc, slashBurn(old(raw), requestID)))
+
+//@ func (Keeper).GetExchangedPrice
+//@ props C07 C01 C06
+//@ requires has_price: len(pricingOf(raw, binding.ServiceName, binding.Provider).Price) >= 1
+//@ ensures [C07,C01] charged_price_is_the_fee: err == NoErr && pricingOf(raw, binding.ServiceName, binding.Provider).Price[0].Denom == baseDenom
+//@      ==> result0 == priceCoins(raw, ctxTime(ctx), consumer, binding.ServiceName, binding.Provider)
+//@ ensures [C11] no_error_in_base_denom: pricingOf(raw, binding.ServiceName, binding.Provider).Price[0].Denom == baseDenom ==> err == NoErr
+
+// ---------------------------------------------------------------- request-context lifecycle (C09, C05, C10, C11)
+//@ func (Keeper).CheckAuthority
+//@ props C05 C09
+//@ ensures [C05] only_consumer: err == NoErr ==> ctxFound(raw, requestContextID) && addrEq(consumer, ctxOf(raw, requestContextID).Consumer)
+//@ ensures [C05] never_a_module_context: err == NoErr && checkModule ==> len(ctxOf(raw, requestContextID).ModuleName) == 0
+//@ ensures complete: ctxFound(raw, requestContextID) && addrEq(consumer, ctxOf(raw, requestContextID).Consumer) && (!checkModule || len(ctxOf(raw, requestContextID).ModuleName) == 0) ==> err == NoErr
+
+//@ func (Keeper).PauseRequestContext
+//@ props C09 C05
+//@ modifies raw
+//@ ensures [C09] only_repeated_running: err == NoErr ==> (let c := ctxOf(old(raw), requestContextID) in ctxFound(old(raw), requestContextID) && c.Repeated && c.State == RUNNING)
+//@ ensures [C05] module_context_needs_consumer: err == NoErr ==> (let c := ctxOf(old(raw), requestContextID) in len(c.ModuleName) > 0 ==> addrEq(consumer, c.Consumer))
+//@ ensures [C09] becomes_paused_nothing_else: err == NoErr ==> (let c := ctxOf(old(raw), requestContextID) in raw == old(raw)[KCtx(requestContextID) := enc_RequestContext(c[State := PAUSED])])
+//@ ensures error_changes_nothing: err != NoErr ==> raw == old(raw)
+
+//@ func (Keeper).StartRequestContext
+//@ props C09 C05 C10 C11
+//@ modifies raw
+//@ ensures [C09] only_paused: err == NoErr ==> ctxFound(old(raw), requestContextID) && ctxOf(old(raw), requestContextID).State == PAUSED
+//@ ensures [C05] module_context_needs_consumer: err == NoErr ==> (let c := ctxOf(old(raw), requestContextID) in len(c.ModuleName) > 0 ==> addrEq(consumer, c.Consumer))
+//@ ensures [C09,C10,C11] running_and_requeued_iff_nothing_pending: err == NoErr ==> (let c := ctxOf(old(raw), requestContextID) in
+//@      let r1 := old(raw)[KCtx(requestContextID) := enc_RequestContext(c[State := RUNNING])] in
+//@      raw == ((!hasExp(old(raw), requestContextID) && !hasNew(old(raw), requestContextID))
+//@               ? r1[KNewQ(ctxHeight(ctx), requestContextID) := idVal(requestContextID)][KNewH(requestContextID) := hVal(ctxHeight(ctx))] : r1))
+//@ ensures error_changes_nothing: err != NoErr ==> raw == old(raw)
+
+//@ func (Keeper).KillRequestContext
+//@ props C09 C05
+//@ modifies raw
+//@ ensures [C09] only_repeated: err == NoErr ==> ctxFound(old(raw), requestContextID) && ctxOf(old(raw), requestContextID).Repeated
+//@ ensures [C05] module_context_needs_consumer: err == NoErr ==> (let c := ctxOf(old(raw), requestContextID) in len(c.ModuleName) > 0 ==> addrEq(consumer, c.Consumer))
+//@ ensures [C09] becomes_completed_nothing_else: err == NoErr ==> (let c := ctxOf(old(raw), requestContextID) in raw == old(raw)[KCtx(requestContextID) := enc_RequestContext(c[State := COMPLETED])])
+//@ ensures error_changes_nothing: err != NoErr ==> raw == old(raw)
+
+//@ func (Keeper).UpdateRequestContext
+//@ props C09 C05 C10
+//@ modifies raw
+//@ requires [C09] stored_context_in_range: ctxFound(raw, requestContextID) ==> rng_RequestContext(ctxOf(raw, requestContextID))
+//@ requires validated: timeout >= 0
+//@ requires counter_fits_int64: ctxFound(raw, requestContextID) ==> ctxOf(raw, requestContextID).BatchCounter < 9223372036854775808
+//@ ensures [C09] never_a_completed_context: err == NoErr ==> ctxFound(old(raw), requestContextID) && ctxOf(old(raw), requestContextID).State != COMPLETED
+//@ ensures [C05] module_context_needs_consumer: err == NoErr ==> (let c := ctxOf(old(raw), requestContextID) in len(c.ModuleName) > 0 ==> addrEq(consumer, c.Consumer))
+//@ ensures [C09] only_that_record: err == NoErr ==> raw == old(raw)[KCtx(requestContextID) := raw[KCtx(requestContextID)]] && ctxFound(raw, requestContextID)
+//@ ensures [C09] identity_state_and_counter_unchanged: err == NoErr ==> (let c := ctxOf(old(raw), requestContextID) in let n := ctxOf(raw, requestContextID) in
+//@      sameIdentity(c, n) && n.State == c.State && n.BatchCounter == c.BatchCounter && n.BatchState == c.BatchState &&
+//@      n.BatchRequestCount == c.BatchRequestCount && n.BatchResponseCount == c.BatchResponseCount && n.BatchResponseThreshold == c.BatchResponseThreshold)
+//@ ensures [C10] frequency_not_below_timeout: err == NoErr ==> (let n := ctxOf(raw, requestContextID) in n.RepeatedFrequency >= n.Timeout)
+//@ ensures [C10] total_not_below_counter: err == NoErr ==> (let n := ctxOf(raw, requestContextID) in let c := ctxOf(old(raw), requestContextID) in
+//@      n.RepeatedTotal == c.RepeatedTotal || (n.RepeatedTotal == repeatedTotal && (repeatedTotal < 1 || repeatedTotal >= c.BatchCounter)))
+//@ ensures error_changes_nothing: err != NoErr ==> raw == old(raw)
+
+// ---------------------------------------------------------------- earned fees (C13, C01)
+//@ func (Keeper).GetEarnedFees
+//@ props C13 C17
+//@ loop 0 invariant pos_in_range: 0 <= iterator_pos && iterator_pos <= itCount(iterator_snap, iterator_pfx)
+//@ loop 0 invariant sum_so_far: forall d Str :: amt(fees, d) == sumIt(iterator_snap, iterator_pfx, iterator_pos, d)
+//@ ensures [C13] sum_of_own_records: forall d Str :: amt(fees, d) == pfxSum(raw, PEarned(provider), d)
+//@ ensures found == true
+
+//@ func (Keeper).DeleteEarnedFees
+//@ props C13
+//@ modifies raw
+//@ loop 0 invariant pos_in_range: 0 <= iterator_pos && iterator_pos <= itCount(iterator_snap, iterator_pfx)
+//@ loop 0 invariant cleared_so_far: forall k Key :: {raw[k]} raw[k] == ((inPfx(k, iterator_pfx) && iterator_snap[k] != bnil && itIdx(iterator_snap, iterator_pfx, k) < iterator_pos) ? bnil : iterator_snap[k])
+//@ ensures [C13] deletes_exactly_own_records: raw == clearPfx(old(raw), PEarned(provider))
+
+//@ func (Keeper).SetEarnedFees
+//@ props C13
+//@ modifies raw
+//@ loop 0 invariant seen: 0 <= iter && iter <= len(fees)
+//@ loop 0 invariant written_so_far: raw == wrEarned(old(raw), provider, fees, iter)
+//@ ensures [C13] one_record_per_coin: raw == wrEarned(old(raw), provider, fees, len(fees))
+
+//@ func (Keeper).SetOwnerEarnedFees
+//@ props C13
+//@ modifies raw
+//@ loop 0 invariant seen: 0 <= iter && iter <= len(fees)
+//@ loop 0 invariant written_so_far: raw == wrOwnerEarned(old(raw), owner, fees, iter)
+//@ ensures [C13] owner_record: raw == wrOwnerEarned(old(raw), owner, fees, len(fees))
+
+//@ func (Keeper).GetOwnerEarnedFees
+//@ props C13 C17
+//@ loop 0 invariant pos_in_range: 0 <= iterator_pos && iterator_pos <= itCount(iterator_snap, iterator_pfx)
+//@ loop 0 invariant sum_so_far: forall d Str :: amt(fees, d) == sumIt(iterator_snap, iterator_pfx, iterator_pos, d)
+//@ ensures [C13] sum_of_owner_record: forall d Str :: amt(fees, d) == pfxSum(raw, POwnerEarned(owner), d)
+//@ ensures found == true
+
+//@ func (Keeper).DeleteOwnerEarnedFees
+//@ props C13
+//@ modifies raw
+//@ loop 0 invariant pos_in_range: 0 <= iterator_pos && iterator_pos <= itCount(iterator_snap, iterator_pfx)
+//@ loop 0 invariant cleared_so_far: forall k Key :: {raw[k]} raw[k] == ((inPfx(k, iterator_pfx) && iterator_snap[k] != bnil && itIdx(iterator_snap, iterator_pfx, k) < iterator_pos) ? bnil : iterator_snap[k])
+//@ ensures [C13] deletes_exactly_owner_record: raw == clearPfx(old(raw), POwnerEarned(owner))
+
+//@ func (Keeper).AddEarnedFee
+//@ props C13 C02 C01
+//@ modifies raw, bal
+//@ requires fee_nonneg: forall i Int :: {fee[i]} 0 <= i && i < len(fee) ==> fee[i].Amount >= 0
+//@ loop 0 invariant seen: 0 <= iter && iter <= len(fee)
+//@ loop 0 invariant tax_so_far: forall d Str :: amt(taxCoins, d) == taxSum(fee, iter, d)
+//@ ensures [C02] tax_goes_to_the_collector: err == NoErr ==> (forall a Bytes, d Str :: {bal[a][d]} bal[a][d] ==
+//@      old(bal)[a][d] - (a == requestAcc ? taxSum(fee, len(fee), d) : 0) + (a == feeCollectorAcc ? taxSum(fee, len(fee), d) : 0))
+//@ witness c1 (Slice Coin) := coinsAdd(earnedFees, earnedFee)
+//@ witness c2 (Slice Coin) := coinsAdd(ownerEarnedFees, earnedFee)
+//@ ensures [C13,C02] provider_gets_fee_minus_tax: err == NoErr ==> (forall d Str :: {amt(c1, d)} amt(c1, d) == pfxSum(old(raw), PEarned(provider), d) + amt(fee, d) - taxSum(fee, len(fee), d))
+//@ ensures [C13] owner_gets_the_same_amount: err == NoErr ==> (forall d Str :: {amt(c2, d)} amt(c2, d) ==
+//@      pfxSum(wrEarned(old(raw), provider, c1, len(c1)), POwnerEarned(ownerOf(old(raw), provider)), d) + amt(fee, d) - taxSum(fee, len(fee), d))
+//@ ensures witnesses_are_coin_lists: err == NoErr ==> len(c1) >= 0 && len(c2) >= 0
+//@ ensures [C13] exactly_these_records_written: err == NoErr ==> raw == wrOwnerEarned(wrEarned(old(raw), provider, c1, len(c1)), ownerOf(old(raw), provider), c2, len(c2))
+//@ ensures error_changes_no_record: err != NoErr ==> raw == old(raw)
+
+//@ func (Keeper).WithdrawEarnedFees
+//@ props C13 C05 C01
+//@ modifies raw, bal
+//@ requires signer_address: len(owner) == 20
+//@ requires [C13] owner_total_covers_provider: forall d Str :: pfxSum(raw, POwnerEarned(owner), d) >= pfxSum(raw, PEarned(provider), d)
+//@ loop 0 invariant pos_in_range: 0 <= iterator_pos && iterator_pos <= itCount(iterator_snap, iterator_pfx)
+//@ loop 0 invariant snapshot: iterator_snap == old(raw) && iterator_pfx == POwnerProv(owner)
+//@ loop 0 invariant cleared_so_far: raw == clrProv(old(raw), iterator_snap, iterator_pfx, iterator_pos)
+//@ witness paid (Slice Coin) := withdrawFees
+//@ witness oe (Slice Coin) := ownerEarnedFees
+//@ ensures [C05] only_the_provider_owner: err == NoErr && len(provider) > 0 ==> addrEq(owner, ownerOf(old(raw), provider))
+//@ ensures [C13] pays_exactly_the_recorded_earnings: err == NoErr ==> (forall d Str :: amt(paid, d) ==
+//@      (len(provider) > 0 ? pfxSum(old(raw), PEarned(provider), d) : pfxSum(old(raw), POwnerEarned(owner), d)))
+//@ ensures [C13] to_the_owners_withdrawal_address: err == NoErr ==> bal == bankMove(old(bal), requestAcc, withdrawAddrOf(old(raw), owner), paid)
+//@ ensures [C13] provider_mode_resets_exactly_its_records: err == NoErr && len(provider) > 0 ==> (forall d Str :: {amt(oe, d)} amt(oe, d) == pfxSum(old(raw), POwnerEarned(owner), d)) &&
+//@      raw == (coinsEqual(paid, oe) ? clearPfx(clearPfx(old(raw), PEarned(provider)), POwnerEarned(owner))
+//@                                   : wrOwnerEarned(clearPfx(old(raw), PEarned(provider)), owner, coinsSub(oe, paid), len(coinsSub(oe, paid))))
+//@ ensures [C13] owner_mode_resets_all_its_providers: err == NoErr && len(provider) == 0 ==>
+//@      raw == clearPfx(clrProv(old(raw), old(raw), POwnerProv(owner), itCount(old(raw), POwnerProv(owner))), POwnerEarned(owner))
+
+// ---------------------------------------------------------------- requests, responses, batches (C02, C08, C12, C16, C17)
+//@ func (Keeper).GetRequest
+//@ props C17 C02 C08
+//@ ensures found_iff_record_and_context: found == requestFound(raw, requestID)
+//@ ensures [C17] reconstructed_from_its_context: found ==> request == requestOf(raw, requestID)
+//@ ensures !found ==> request == zero_Request
+
+//@ func (Keeper).GetResponseOutputs
+//@ props C12
+//@ loop 0 invariant pos_in_range: 0 <= iterator_pos && iterator_pos <= itCount(iterator_snap, iterator_pfx)
+//@ loop 0 invariant outputs_so_far: outputs == outsIt(iterator_snap, iterator_pfx, iterator_pos)
+//@ ensures [C12] exactly_the_nonempty_outputs_of_the_batch: result == outputsOf(raw, requestContextID, batchCounter)
+
+//@ func (Keeper).Callback
+//@ props C12
+//@ modifies cblog
+//@ ensures [C12] one_callback_with_batch_outputs: (let c := ctxOrZero(raw, requestContextID) in let outs := outputsOf(raw, requestContextID, c.BatchCounter) in
+//@      cblog == cbResp(old(cblog), requestContextID, outs, len(outs) < c.BatchResponseThreshold))
+
+//@ func (Keeper).CompleteBatch
+//@ props C12 C09
+//@ modifies cblog
+//@ ensures [C12] marks_batch_completed_only: result == requestContext[BatchState := BATCHCOMPLETED]
+//@ ensures [C12] callback_once_for_module_contexts: (let c := ctxOrZero(raw, requestContextID) in let outs := outputsOf(raw, requestContextID, c.BatchCounter) in
+//@      cblog == (len(requestContext.ModuleName) != 0 ? cbResp(old(cblog), requestContextID, outs, len(outs) < c.BatchResponseThreshold) : old(cblog)))
+
+//@ func (Keeper).AddResponse
+//@ props C02 C08 C05 C12 C04 C07
+//@ modifies raw, bal, supply, cblog
+//@ maypanic
+//@ preserves wf: WF(raw)
+//@ preserves [C03] deposits_in_custody: depInv(raw, bal)
+//@ requires [C04] binding_of_request_exists: requestFound(raw, requestID) ==> bindFound(raw, reqSvc(raw, requestID), reqProv(raw, requestID))
+//@ requires fee_nonneg: requestFound(raw, requestID) ==> (forall i Int :: {reqFee(raw, requestID)[i]} 0 <= i && i < len(reqFee(raw, requestID)) ==> reqFee(raw, requestID)[i].Amount >= 0)
+//@ requires stored_in_range: requestFound(raw, requestID) ==> rng_RequestContext(ctxOf(raw, reqCtxId(raw, requestID)))
+//@ requires consumer_ordinary: requestFound(raw, requestID) ==> ordinary(reqConsumer(raw, requestID))
+//@ ensures [C08,C05] accepted_only_from_its_provider_while_pending: err == NoErr ==> requestFound(old(raw), requestID) && addrEq(provider, reqProv(old(raw), requestID)) && isActive(old(raw), requestID)
+//@ ensures [C08] rejected_response_changes_nothing: (!requestFound(old(raw), requestID) || !addrEq(provider, reqProv(old(raw), requestID)) || !isActive(old(raw), requestID))
+//@      ==> err != NoErr && raw == old(raw) && bal == old(bal) && supply == old(supply) && cblog == old(cblog)
+//@ ensures [C02,C08] no_longer_pending_in_either_index: err == NoErr ==> raw[KActID(requestID)] == bnil &&
+//@      raw[KActB(reqSvc(old(raw), requestID), provider, reqOf(old(raw), requestID).ExpirationHeight, requestID)] == bnil
+//@ ensures [C02,C04] malformed_output_slashes_and_refunds_the_consumer: err == NoErr && malformed(output) ==>
+//@      bal == bankMove(bankBurn(old(bal), depositAcc, slashBurn(old(raw), requestID)), requestAcc, reqConsumer(old(raw), requestID), reqFee(old(raw), requestID)) &&
+//@      supply == supplyBurn(old(supply), slashBurn(old(raw), requestID))
+//@ ensures [C02,C04] good_response_pays_tax_and_never_slashes: err == NoErr && !malformed(output) ==> supply == old(supply) &&
+//@      (forall a Bytes, d Str :: {bal[a][d]} bal[a][d] == old(bal)[a][d]
+//@          - (a == requestAcc ? taxSum(reqFee(old(raw), requestID), len(reqFee(old(raw), requestID)), d) : 0)
+//@          + (a == feeCollectorAcc ? taxSum(reqFee(old(raw), requestID), len(reqFee(old(raw), requestID)), d) : 0))
+//@ ensures [C08] response_recorded: err == NoErr ==> raw[KResp(requestID)] == enc_Response(mkResponse(provider, reqConsumer(old(raw), requestID), result, output, reqCtxId(old(raw), requestID), reqOf(old(raw), requestID).RequestContextBatchCounter))
+//@ ensures [C07] volume_counts_this_response: err == NoErr ==> volOf(raw, reqConsumer(old(raw), requestID), reqSvc(old(raw), requestID), provider) == wrap_u64(volOf(old(raw), reqConsumer(old(raw), requestID), reqSvc(old(raw), requestID), provider) + 1)
+//@ ensures [C12] response_counted_and_batch_completed_when_all_answered: err == NoErr ==> (let id := reqCtxId(old(raw), requestID) in let c := ctxOf(old(raw), id) in let n := ctxOf(raw, id) in
+//@      ctxFound(raw, id) && n.BatchResponseCount == wrap_u32(c.BatchResponseCount + 1) && sameIdentity(c, n) && n.State == c.State && n.BatchCounter == c.BatchCounter && n.BatchRequestCount == c.BatchRequestCount &&
+//@      n.BatchState == (wrap_u32(c.BatchResponseCount + 1) == c.BatchRequestCount ? BATCHCOMPLETED : c.BatchState))
+//@ ensures [C16,C15] touches_only_its_own_records: err == NoErr ==> (forall k Key :: {raw[k]}
+//@      (k != KResp(requestID) && k != KActID(requestID) && k != KActB(reqSvc(old(raw), requestID), provider, reqOf(old(raw), requestID).ExpirationHeight, requestID) &&
+//@       k != KVol(reqConsumer(old(raw), requestID), reqSvc(old(raw), requestID), provider) && k != KCtx(reqCtxId(old(raw), requestID)) &&
+//@       k != KBind(reqSvc(old(raw), requestID), reqProv(old(raw), requestID)) && !(is_KEarned(k) && kea_prov(k) == provider) && k != KOwnerEarned(ownerOf(old(raw), provider)))
+//@      ==> raw[k] == old(raw)[k])
+
+// ---------------------------------------------------------------- issuing a batch (C06, C01, C08, C12)
+//@ func (Keeper).FilterServiceProviders
+//@ props C06 C01
+//@ requires wf: WF(raw)
+//@ loop 0 invariant seen: 0 <= iter && iter <= len(providers)
+//@ loop 0 invariant kept_have_bindings: len(newProviders) <= iter && (forall i Int :: {newProviders[i]} 0 <= i && i < len(newProviders) ==> bindFound(raw, serviceName, newProviders[i]))
+//@ loop 0 invariant filtered_so_far: allBase(raw, serviceName, providers) ==> newProviders == filtIt(raw, ctxTime(ctx), serviceName, timeout, serviceFeeCap, consumer, providers, iter)
+//@ loop 0 invariant total_so_far: allBase(raw, serviceName, providers) ==> totalPrices == totIt(raw, ctxTime(ctx), serviceName, timeout, serviceFeeCap, consumer, providers, iter)
+//@ ensures [C06] exactly_the_eligible_providers_in_order: err == NoErr && allBase(raw, serviceName, providers) ==>
+//@      result0 == filtIt(raw, ctxTime(ctx), serviceName, timeout, serviceFeeCap, consumer, providers, len(providers))
+//@ ensures [C06,C01] total_is_the_sum_of_their_prices: err == NoErr && allBase(raw, serviceName, providers) ==>
+//@      result1 == totIt(raw, ctxTime(ctx), serviceName, timeout, serviceFeeCap, consumer, providers, len(providers))
+//@ ensures [C11] no_error_when_prices_are_in_base_denom: allBase(raw, serviceName, providers) ==> err == NoErr
+//@ ensures [C06] only_providers_with_bindings: err == NoErr ==> len(result0) <= len(providers) && (forall i Int :: {result0[i]} 0 <= i && i < len(result0) ==> bindFound(raw, serviceName, result0[i]))
+
+//@ func (Keeper).buildRequest
+//@ props C08 C07 C01
+//@ requires wf: WF(raw)
+//@ ensures [C08] expiry_is_issue_height_plus_timeout: result.RequestHeight == ctxHeight(ctx) && result.ExpirationHeight == wrap_i64(ctxHeight(ctx) + timeout)
+//@ ensures [C07] super_mode_is_free: superMode ==> result.ServiceFee == noCoins
+//@ ensures [C07,C01] fee_is_the_published_price: !superMode && bindFound(raw, serviceName, provider) ==> result.ServiceFee == priceCoins(raw, ctxTime(ctx), consumer, serviceName, provider)
+//@ ensures identity_fields: result.RequestContextId == requestContextID && result.RequestContextBatchCounter == batchCounter && result.Provider == provider
+
+//@ func (Keeper).InitiateRequests
+//@ props C01 C08 C12 C18 C09 C16
+//@ modifies raw
+//@ requires wf: WF(raw)
+//@ requires context_exists: ctxFound(raw, requestContextID) && rng_RequestContext(ctxOf(raw, requestContextID))
+//@ requires bindings_exist: forall i Int :: {providers[i]} 0 <= i && i < len(providers) ==> bindFound(raw, ctxOf(raw, requestContextID).ServiceName, providers[i])
+//@ requires [C18] index_fits: len(providers) <= 32767
+//@ loop 0 invariant seen: 0 <= iter && iter <= len(providers)
+//@ loop 0 invariant [C01,C08,C18] issued_so_far: raw == issueIt(old(raw), ctxTime(ctx), ctxHeight(ctx), requestContextID, ctxOf(old(raw), requestContextID),
+//@      wrap_u64(ctxOf(old(raw), requestContextID).BatchCounter + 1), providers, iter)
+//@ loop 0 invariant [C18] event_order_is_id_order: len(requests) == iter && len(requestIDs) == iter
+//@ ensures [C01,C08,C18] one_request_per_provider_with_its_price_and_markers: (let c := ctxOf(old(raw), requestContextID) in
+//@      raw == issueIt(old(raw), ctxTime(ctx), ctxHeight(ctx), requestContextID, c, wrap_u64(c.BatchCounter + 1), providers, len(providers))
+//@             [KCtx(requestContextID) := enc_RequestContext(c[BatchCounter := wrap_u64(c.BatchCounter + 1)][BatchState := BATCHRUNNING][BatchResponseCount := 0]
+//@                  [BatchRequestCount := wrap_u32(len(providers))][BatchResponseThreshold := c.ResponseThreshold])])
+//@ ensures [C18] ids_in_issue_order: len(result) == len(providers)
+
+//@ func (Keeper).SkipCurrentRequestBatch
+//@ props C06 C09 C11 C12
+//@ modifies raw
+//@ ensures [C06,C09,C11] counter_advances_no_requests_expiry_scheduled: raw == old(raw)
+//@      [KCtx(requestContextID) := enc_RequestContext(requestContext[BatchCounter := wrap_u64(requestContext.BatchCounter + 1)][BatchState := BATCHRUNNING][BatchRequestCount := 0][BatchResponseCount := 0][BatchResponseThreshold := requestContext.ResponseThreshold])]
+//@      [KExpQ(wrap_i64(ctxHeight(ctx) + requestContext.Timeout), requestContextID) := idVal(requestContextID)]
+//@      [KExpH(requestContextID) := hVal(wrap_i64(ctxHeight(ctx) + requestContext.Timeout))]
+
+//@ func (Keeper).OnRequestContextPaused
+//@ props C09 C12 C06
+//@ modifies raw, cblog
+//@ ensures [C09] context_paused_batch_completed: raw == old(raw)[KCtx(requestContextID) := enc_RequestContext(requestContext[BatchState := BATCHCOMPLETED][State := PAUSED])]
+//@ ensures [C12] state_callback_for_module_contexts: cblog == (len(requestContext.ModuleName) > 0 ? cbState(old(cblog), requestContextID, cause) : old(cblog))
+
+// ---------------------------------------------------------------- batch clean-up (C16)
+//@ func (Keeper).CleanBatch
+//@ props C16
+//@ modifies raw
+//@ loop 0 invariant pos_in_range: 0 <= iterator_pos && iterator_pos <= itCount(iterator_snap, iterator_pfx)
+//@ loop 0 invariant snapshot: iterator_snap == old(raw) && iterator_pfx == PReqByCtx(requestContextID, requestContext.BatchCounter)
+//@ loop 0 invariant cleaned_so_far: forall k Key :: {raw[k]} raw[k] ==
+//@      (((is_KReq(k) && inPfx(k, iterator_pfx) && iterator_snap[k] != bnil && itIdx(iterator_snap, iterator_pfx, k) < iterator_pos) ||
+//@        (is_KResp(k) && inPfx(KReq(kresp_rid(k)), iterator_pfx) && iterator_snap[KReq(kresp_rid(k))] != bnil && itIdx(iterator_snap, iterator_pfx, KReq(kresp_rid(k))) < iterator_pos)) ? bnil : iterator_snap[k])
+//@ ensures [C16] removes_exactly_the_batch_records: forall k Key :: {raw[k]} raw[k] == (cleanedKey(old(raw), requestContextID, requestContext.BatchCounter, k) ? bnil : old(raw)[k])
+
+//@ func (Keeper).CompleteServiceContext
+//@ props C16 C09
+//@ modifies raw
+//@ ensures [C16] context_removed: raw == old(raw)[KCtx(requestContextID) := bnil]
+
+//@ func (Keeper).CreateRequestContext
+//@ props C10 C09 C18 C15 C11
+//@ modifies raw
+//@ requires in_range: 0 <= repeatedFrequency && repeatedFrequency <= 18446744073709551615 && 0 <= responseThreshold && responseThreshold <= 4294967295 && 0 <= state && state <= 2
+//@ witness hash Bytes := txHash
+//@ witness index Int := msgIndex
+//@ ensures [C18] id_from_tx_hash_and_message_index: err == NoErr ==> result0 == mkCtxID(hash, index)
+//@ ensures [C15] only_for_a_defined_service: err == NoErr ==> defFound(old(raw), serviceName)
+//@ ensures [C10] timeout_within_the_bound: err == NoErr ==> timeout <= params.MaxRequestTimeout
+//@ ensures [C09,C10] stored_as_requested: err == NoErr ==> raw[KCtx(result0)] == enc_RequestContext(mkRequestContext(serviceName, providers, consumer, input, serviceFeeCap, moduleName, timeout, superMode, repeated,
+//@      (repeated ? (repeatedFrequency == 0 ? wrap_u64(timeout) : repeatedFrequency) : 0), (repeated ? repeatedTotal : 0), 0, 0, 0, responseThreshold, responseThreshold, BATCHCOMPLETED, state))
+//@ ensures [C10,C11] first_batch_queued_for_the_end_of_this_block: err == NoErr ==> raw == (let r1 := old(raw)[KCtx(result0) := raw[KCtx(result0)]] in
+//@      (state == RUNNING ? r1[KNewQ(ctxHeight(ctx), result0) := idVal(result0)][KNewH(result0) := hVal(ctxHeight(ctx))] : r1))
+//@ ensures error_changes_nothing: err != NoErr ==> raw == old(raw)
+
+//@ func (Keeper).AddServiceDefinition
+//@ props C15
+//@ modifies raw
+//@ ensures [C15] second_definition_rejected: err == NoErr ==> !defFound(old(raw), name)
+//@ ensures [C15] stored_under_its_name_nothing_else_changes: err == NoErr ==> raw == old(raw)[KDef(name) := enc_ServiceDefinition(mkServiceDefinition(name, description, tags, author, authorDescription, schemas))]
+//@ ensures error_changes_nothing: err != NoErr ==> raw == old(raw)
